@@ -22,6 +22,7 @@ DOC = {
         'C04.R3': 'was_modified: relation is mtime > after (or >=) with the resolution of the stored time stamp added to the file time (whole-second time stamps), an unreadable mtime yields true, the answer is never reset to false, all files are examined',
         'C04.R4': 'the length filter is skipped only under no_check_size; run_dedupe sets it only via |= transform.is_some(); the regular-file filter is unconditional',
         'C04.R5': 'fetch_files_metadata: try_map_all fails iff any element failed; the failure discards the group',
+        'C04.R8': 'the limit of the staleness test, when the user gives it (--modified-before), is the instant he wrote: parse_date_time converts the naive date and time returned by dtparse with from_local_datetime of the parsed (or the local) offset, never with from_naive_utc_and_offset / from_utc, which would read the wall-clock digits as UTC',
         'C04.R7': 'the metadata the staleness tests run on follow symbolic links (fs::metadata), so the time stamp that was_modified compares also covers the link itself: the compared value derives from an lstat (symlink_metadata / link_metadata) of the path as well - a member replaced by a symlink to an old file of the same length after the report is seen as modified',
         'C04.R6': 'the clock read that becomes ReportHeader.timestamp happens before group_files starts reading files',
     },
@@ -39,6 +40,7 @@ def run(ctx):
     r5(ctx)
     r6(ctx)
     r7(ctx)
+    r8(ctx)
     from .common import run_mandatory
     run_mandatory(ctx, 'C04')
 
@@ -188,6 +190,27 @@ def r2(ctx):
                   ('the vector given to was_modified is a selection of the group (%s at bb%d is behind it but not behind the grouped vector): a member that is left out - the retained file, which has to carry '
                    'the content of the dropped ones - can have been rewritten since the report without the group being skipped' % (only[0][1], only[0][0])) if only else 'the checked files are not the grouped files')
         ctx.check(W.bb in b.dominators()[G.bb] or bool(guards), rule, P + '|check-before-grouping', G.where(), 'the check precedes the grouping', 'grouping happens before the staleness check')
+
+
+def r8(ctx):
+    """The limit given with --modified-before denotes the instant the user wrote."""
+    rule = 'C04.R8'
+    lib = ctx.lib
+    b = ctx.need_body(rule, 'config::parse_date_time')
+    if b is None:
+        return
+    ps = b.calls(r'^dtparse::parse$')
+    if not ctx.floor(rule, 'dtparse::parse in parse_date_time', len(ps), 1, b.where()):
+        return
+    bodies = [b] + [lib.body(cp) for cp in lib.closures_of(b.path)]
+    as_utc = [c for x in bodies for c in x.calls(r'DateTime::<Tz>::from_naive_utc_and_offset$|DateTime<.*>::from_naive_utc_and_offset$|::from_utc$|TimeZone::from_utc_datetime$|TimeZone>::from_utc_datetime$|NaiveDateTime::and_utc$')
+              if any(k.bb == ps[0].bb for a in c.args for k in backslice(x, [a]).calls) or x is not b]
+    as_local = [c for x in bodies for c in x.calls(r'TimeZone::from_local_datetime$|TimeZone>::from_local_datetime$|NaiveDateTime::and_local_timezone$')]
+    ctx.check(bool(as_local) and not as_utc, rule, b.path + '|wall-clock-in-its-zone', (as_utc[0].where() if as_utc else ps[0].where()),
+              'the parsed date and time are taken as the wall-clock time of the given (or local) time zone (%d conversions)' % len(as_local),
+              'the date and time parsed from --modified-before are wall-clock digits in the given (or local) offset, but they are handed to from_naive_utc_and_offset, which reads the same digits as UTC: '
+              'the limit is off by the whole UTC offset - east of Greenwich it lies 1..14 hours in the future, so groups with files modified after the time the user gave are still processed '
+              '(`remove -m "2024-05-01 12:00:00 +09:00"` removes a duplicate of a file written at 13:00 +09:00)')
 
 
 def r3(ctx):
